@@ -63,6 +63,13 @@ class BaseVars(object):
         seq = list(seq)
         return seq[self.choice(name, len(seq))]
 
+    def sharded_choice(self, name, n):
+        """A choice whose range is split over the shards of the obligation."""
+        mine = [i for i in range(n) if i % self.nshards == self.shard % self.nshards]
+        if not mine:
+            self.assume(False)
+        return mine[self.choice(name, len(mine))]
+
     def opt_str(self, name, maxlen, alphabet=None):
         if self.choice(name + "?", 2) == 0:
             return None
